@@ -48,18 +48,26 @@ func NewGuardianSets(
 }
 
 func (gs *GuardianSets) GetGuardianSet(ctx context.Context, index int) (*common.GuardianSet, error) {
-	if index <= gs.currentGuardianSetIndex {
-		return gs.guardianSetLists[index], nil
+	// The index and the list are updated by updateGuardianSets under the lock; read them under it as well.
+	gs.lock.Lock()
+	currentIndex := gs.currentGuardianSetIndex
+	if index <= currentIndex {
+		guardianSet := gs.guardianSetLists[index]
+		gs.lock.Unlock()
+		return guardianSet, nil
 	}
+	gs.lock.Unlock()
 
 	// Perhaps the guardian set has been updated and we need to query from the chain
-	guardianSets, err := gs.getGuardianSetsRange(ctx, uint32(gs.currentGuardianSetIndex+1), uint32(index))
+	guardianSets, err := gs.getGuardianSetsRange(ctx, uint32(currentIndex+1), uint32(index))
 	if err != nil {
 		return nil, err
 	}
 	gs.updateGuardianSets(guardianSets)
 	gs.guardianSetC <- gs.GetCurrentGuardianSet()
 
+	gs.lock.Lock()
+	defer gs.lock.Unlock()
 	if index > gs.currentGuardianSetIndex {
 		return nil, fmt.Errorf("invalid guardian index %v, current guardian set index: %v", index, gs.currentGuardianSetIndex)
 	}
@@ -67,7 +75,15 @@ func (gs *GuardianSets) GetGuardianSet(ctx context.Context, index int) (*common.
 }
 
 func (gs *GuardianSets) GetCurrentGuardianSet() *common.GuardianSet {
+	gs.lock.Lock()
+	defer gs.lock.Unlock()
 	return gs.guardianSetLists[gs.currentGuardianSetIndex]
+}
+
+func (gs *GuardianSets) currentIndex() int {
+	gs.lock.Lock()
+	defer gs.lock.Unlock()
+	return gs.currentGuardianSetIndex
 }
 
 func (gs *GuardianSets) UpdateGuardianSet(ctx context.Context) {
@@ -80,7 +96,7 @@ func (gs *GuardianSets) updateGuardianSet(ctx context.Context) {
 	for {
 		select {
 		case <-tick.C:
-			guardianSets, err := GetGuardianSetsFromChain(ctx, gs.ethRpcUrl, gs.ethGovernanceAddress, uint32(gs.currentGuardianSetIndex+1))
+			guardianSets, err := GetGuardianSetsFromChain(ctx, gs.ethRpcUrl, gs.ethGovernanceAddress, uint32(gs.currentIndex()+1))
 			if err != nil {
 				gs.logger.Error("failed to get guardian sets", zap.Error(err))
 				continue
